@@ -264,31 +264,36 @@ func (ex *Exec) feasible(t *sym.Term) sym.Result {
 	return ex.solver.CheckWith(t)
 }
 
-// choose forks over n alternatives that are all feasible by construction
-// (scheduler choices, explicit harness choices).
-func (ex *Exec) choose(n int, why string) int {
+// choose forks over n alternatives that are all feasible by construction.
+// kind 's' = scheduler choice, 'c' = explicit harness choice (verifChoice).
+func (ex *Exec) choose(n int, why string) int { return ex.chooseK('s', n, why) }
+
+func (ex *Exec) chooseK(kind byte, n int, why string) int {
 	if n <= 1 {
 		return 0
 	}
 	if ex.ps.pinMode {
-		if len(ex.ps.schedPin) > 0 {
+		if kind == 's' && len(ex.ps.schedPin) > 0 {
 			v := ex.ps.schedPin[0]
 			ex.ps.schedPin = ex.ps.schedPin[1:]
-			ex.record(Decision{'c', v})
+			if int(v) >= n {
+				v = 0
+			}
+			ex.record(Decision{kind, v})
 			return int(v)
 		}
-		ex.record(Decision{'c', 0})
+		ex.record(Decision{kind, 0})
 		return 0
 	}
 	if ex.replaying() {
-		d := ex.nextReplay('c')
+		d := ex.nextReplay(kind)
 		ex.record(d)
 		return int(d.V)
 	}
 	for i := 1; i < n; i++ {
-		ex.pushAlt(Decision{'c', uint64(i)})
+		ex.pushAlt(Decision{kind, uint64(i)})
 	}
-	ex.record(Decision{'c', 0})
+	ex.record(Decision{kind, 0})
 	return 0
 }
 
@@ -411,7 +416,7 @@ func (ex *Exec) modelInputs(m map[*sym.Term]uint64) ([]uint64, []string) {
 func (ex *Exec) schedChoices() []uint64 {
 	var s []uint64
 	for _, d := range ex.ps.trace {
-		if d.K == 'c' {
+		if d.K == 's' {
 			s = append(s, d.V)
 		}
 	}
